@@ -238,6 +238,51 @@ def _segtype_test(fb, fn, e, path=None, depth=0):
     return None
 
 
+def segtest_on(fb, fn, e, cur, p=None):
+    """The segment-type read in e (direct, or through a predicate helper's pointer argument) looks at
+    the message that starts at pointer variable `cur`."""
+    x = strip_all_casts(facts.expand(fn, p.value_of(e) if p is not None else e))
+    while x.get("k") == "un" and x.get("op") == "!":
+        x = strip_all_casts(x["e"])
+    for y in walk(x):
+        if y.get("k") == "call" and callee_name(y) == MH + "::getSegmentType":
+            return cur is not None and cur in reads(y.get("obj", {}))
+        if y.get("k") == "call" and y.get("args"):
+            g = fb.resolve_call(y)
+            if g is not None and g.body is not None and (g.raw.get("rett") or {}).get("k") == "bool":
+                return cur is not None and strip_all_casts(y["args"][0]).get("decl") == cur
+    return False
+
+
+def rule_segtype_subject(res, rid, m):
+    """Every test of a segment type inside the message loop reads the header of the message the
+    validator accepted (the cursor), not some other position of the datagram."""
+    fb = m.fb
+    seen = set()
+    n = 0
+    for p in m.body_paths():
+        cur = None
+        for c in p.calls(LABELS["valid"]):
+            if c.get("args"):
+                cur = strip_all_casts(c["args"][0]).get("decl")
+        for a in p.atoms:
+            nodes = [a[3]] if a[0] == "truth" else ([a[4], a[5]] if a[0] == "cmp" else ([a[4]] if a[0] == "switch" and a[4] is not None else []))
+            for e in nodes:
+                if e.get("id") in seen:
+                    continue
+                is_test = (a[0] == "truth" and _segtype_test(fb, p.fn, e, p) is not None) or \
+                    (a[0] != "truth" and callee_name(strip_all_casts(facts.expand(p.fn, p.value_of(e)))) == MH + "::getSegmentType")
+                if not is_test:
+                    continue
+                seen.add(e.get("id"))
+                n += 1
+                res.check(segtest_on(fb, p.fn, e, cur, p), rid, "segment-test@%s" % (e.get("loc") or "").split(":", 1)[-1], e.get("loc"),
+                          "segment type read from the validated message at the cursor",
+                          "this branch tests the segment type of a message other than the one isValidPacket accepted at the cursor: messages are "
+                          "classified (unsegmented / first / continuation) by another message's header")
+    return n
+
+
 def seg_labels(fb, p):
     """Which segment types are still possible on path p, from the branch outcomes that test the
     message's segment type (directly, through a local, or through a predicate helper).
@@ -245,6 +290,14 @@ def seg_labels(fb, p):
     enum = fb.enum(SEGTYPE)
     vals = {c["name"]: c["value"] for c in enum["enumerators"]}
     poss = set(vals.values())
+    # the message under test: first argument of the validator call on this path (the cursor)
+    cur = None
+    for c in p.calls(LABELS["valid"]):
+        if c.get("args"):
+            cur = strip_all_casts(c["args"][0]).get("decl")
+
+    def on_cursor(e):
+        return segtest_on(fb, p.fn, e, cur, p)
     for a in p.atoms:
         if a[0] == "switch":
             cond = a[4]
@@ -254,7 +307,7 @@ def seg_labels(fb, p):
         if a[0] == "cmp":
             for x, y, flip in ((a[4], a[5], False), (a[5], a[4], True)):
                 xs = strip_all_casts(facts.expand(p.fn, p.value_of(x)))
-                if xs.get("k") == "call" and callee_name(xs) == MH + "::getSegmentType" and const_value(y) is not None:
+                if xs.get("k") == "call" and callee_name(xs) == MH + "::getSegmentType" and const_value(y) is not None and on_cursor(x):
                     op = a[2]
                     if flip:
                         op = {"<": ">", ">": "<", "<=": ">=", ">=": "<="}.get(op, op)
@@ -263,6 +316,8 @@ def seg_labels(fb, p):
             continue
         if a[0] == "truth":
             t = _segtype_test(fb, p.fn, a[3], p)
+            if t is not None and not on_cursor(a[3]):
+                t = None  # a test of some other message's segment type says nothing about this one
             if t is not None:
                 op = t[0] if a[2] else facts._neg_op(t[0])
                 poss = {v for v in poss if _CMP[op](v, t[1])}
